@@ -967,7 +967,9 @@ def hErsReconcile (inp out : Json) : Except String Findings := do
         | none => none)) with
     | none => fs
     | some del =>
-      if del.length != updDel.length then fs.push "DIFF deleted.update.unresolved" else
+      -- (a deletion of a pod that is not the entry of a targeted node — e.g. one that no longer exists — is a
+      -- DIFF; the budget is still judged on the deletions of real entries)
+      let fs := if del.length != updDel.length then fs.push "DIFF deleted.update.unresolved" else fs
       let ru := d.strategy.rollingUpdate
       let n : Int := m.entries.length
       match resolveIntOrPercent ru.maxUnavailable n, resolveIntOrPercent ru.maxPodSchedulerFailure n with
